@@ -20,7 +20,7 @@
 (* intended design (DESIGN.md section 2): with Dev = {} all laws hold;     *)
 (* with a deviation enabled the operators describe what the code does.     *)
 (***************************************************************************)
-EXTENDS Naturals, Integers, Sequences, FiniteSets
+EXTENDS Naturals, Integers, Sequences, FiniteSets, TLC
 
 Undef == -1      \* "no distance" (Python None)
 
@@ -51,11 +51,12 @@ Bfs(E, seen, b, n) ==
   ELSE LET nx == Succ(E, seen) IN IF nx = seen THEN Undef ELSE Bfs(E, nx, b, n + 1)
 PathLen(E, a, b) == Bfs(E, {a}, b, 0)
 
-(* A hierarchy in closed form: everything Sub/Dist need, computed once. *)
+(* A hierarchy in closed form: everything Sub/Dist need, computed once (TLCEval makes   *)
+(* TLC tabulate the functions instead of re-evaluating their bodies at every lookup).  *)
 MkH(Cls, E, anyd) ==
   [cls  |-> Cls,
-   desc |-> [c \in Cls |-> Desc(E, c) \cap Cls],
-   plen |-> [a \in Cls |-> [b \in Cls |-> PathLen(E, a, b)]],
+   desc |-> TLCEval([c \in Cls |-> Desc(E, c) \cap Cls]),
+   plen |-> TLCEval([a \in Cls |-> TLCEval([b \in Cls |-> PathLen(E, a, b)])]),
    anyd |-> anyd]          \* configuration.generator_selection.generator_any_distance
 IsSubclass(H, a, b) == a \in H.desc[b]         \* TypeSystem.is_subclass(a, b)
 
@@ -97,15 +98,13 @@ SubR(H, strict, l, r) ==
 Sub(H, l, r) == SubR(H, TRUE, l, r)
 MaybeSub(H, l, r) == SubR(H, FALSE, l, r)
 
+RECURSIVE SumSeq(_)
+SumSeq(q) == IF q = <<>> THEN 0 ELSE Head(q) + SumSeq(Tail(q))
 SumDef(q) ==     \* sum, Undef if a summand is Undef
-  LET F[i \in 0..Len(q)] == IF i = 0 THEN 0
-                            ELSE IF F[i-1] = Undef \/ q[i] = Undef THEN Undef ELSE F[i-1] + q[i]
-  IN F[Len(q)]
+  IF \E i \in DOMAIN q : q[i] = Undef THEN Undef ELSE SumSeq(q)
 MinDef(q) ==     \* minimum of the defined entries, Undef if there is none
-  LET F[i \in 0..Len(q)] == IF i = 0 THEN Undef
-                            ELSE IF q[i] = Undef THEN F[i-1]
-                            ELSE IF F[i-1] = Undef THEN q[i] ELSE MinI(F[i-1], q[i])
-  IN F[Len(q)]
+  LET S == {q[i] : i \in DOMAIN q} \ {Undef}
+  IN IF S = {} THEN Undef ELSE CHOOSE m \in S : \A x \in S : m <= x
 
 (* subtype_distance(supertype t, subtype s).  Intended design (Dev = {}): defined exactly    *)
 (* when MaybeSub(s, t), number of subclass steps, summed over arguments, minimum over union  *)
@@ -166,8 +165,8 @@ LawRefl(UT, sub) == \A i \in DOMAIN UT : sub[i][i]
 \* Any is consistent with every type in both directions, so chains through a type that
 \* contains Any prove nothing (PEP 483): the middle type must be fully static.
 LawTrans(UT, sub) ==
-  \A i \in DOMAIN UT : \A j \in DOMAIN UT :
-    (sub[i][j] /\ AnyFree(UT[j])) => \A k \in DOMAIN UT : sub[j][k] => sub[i][k]
+  LET mid == {j \in DOMAIN UT : AnyFree(UT[j])}
+  IN \A j \in mid : \A i \in DOMAIN UT : sub[i][j] => \A k \in DOMAIN UT : sub[j][k] => sub[i][k]
 LawAnyTop(UT, rel) == \A j \in DOMAIN UT : UT[j].k = "any" => \A i \in DOMAIN UT : rel[i][j]
 LawUnionAll(UT, sub) ==
   \A i \in DOMAIN UT : UT[i].k = "union" =>
@@ -175,22 +174,16 @@ LawUnionAll(UT, sub) ==
       \A j \in DOMAIN UT : sub[i][j] <=> \A m \in ms : sub[m][j]
 \* "consistent with the class hierarchy": plain instance types follow is_subclass
 LawInstFollowsClass(UT, sub, CS, subc) ==
-  \A i \in DOMAIN UT : \A j \in DOMAIN UT :
-    (UT[i].k = "inst" /\ UT[j].k = "inst" /\ UT[i].a = <<>> /\ UT[j].a = <<>>) =>
-      LET a == CHOOSE x \in DOMAIN CS : CS[x] = UT[i].c
-          b == CHOOSE x \in DOMAIN CS : CS[x] = UT[j].c
-      IN sub[i][j] <=> subc[a][b]
+  LET plain == {i \in DOMAIN UT : UT[i].k = "inst" /\ UT[i].a = <<>>}
+      cidx == TLCEval([i \in plain |-> CHOOSE x \in DOMAIN CS : CS[x] = UT[i].c])
+  IN \A i \in plain : \A j \in plain : sub[i][j] <=> subc[cidx[i]][cidx[j]]
 \* is_subclass = reflexive transitive closure of (Python issubclass + numeric tower)
-Closure(n, R) ==    \* R : n x n booleans; Warshall
-  LET W[k \in 0..n] == IF k = 0 THEN R
-        ELSE [i \in 1..n |-> [j \in 1..n |-> W[k-1][i][j] \/ (W[k-1][i][k] /\ W[k-1][k][j])]]
-  IN W[n]
 LawAgreesWithIssubclass(CS, subc, issub) ==
   LET n == Len(CS)
-      base == [i \in 1..n |-> [j \in 1..n |->
-                 \/ i = j \/ issub[i][j] \/ <<CS[j], CS[i]>> \in TowerEdges]]
-      cl == Closure(n, base)
-  IN \A i \in 1..n : \A j \in 1..n : subc[i][j] <=> cl[i][j]
+      \* edges super -> sub: Python's issubclass and the tower
+      E == {p \in (1..n) \X (1..n) : issub[p[2]][p[1]] \/ <<CS[p[1]], CS[p[2]]>> \in TowerEdges}
+      below == TLCEval([j \in 1..n |-> Desc(E, j)])
+  IN \A i \in 1..n : \A j \in 1..n : subc[i][j] <=> i \in below[j]
 \* a pair (supertype i, subtype j) with a distance although j cannot be a subtype of i
 DistWithoutMaybe(UT, dist, maybe, i, j) == dist[i][j] # Undef /\ ~maybe[j][i]
 LawDistOnlyWhenMaybeSub(UT, dist, maybe) ==
